@@ -36,16 +36,16 @@ theorem accCreate_bad_type (fuel : Nat) (t : Tables) (row : ARow) (parent : Nat)
   exact ⟨h1, by rw [h2]; exact (frame_resolveXtype t row hint).fr s⟩
 
 /-- `list.insert(i, NewObject(...))`, an object of another model: refused for every relation kind, nothing changes -/
-theorem frame_listInsert_newObject (row o es i h) : Frame (listInsert row o es i (.newObject h)) := by
-  unfold listInsert accInsert containInsert linkInsertM attrInsertM; repeat' (first | contradiction | frame_step)
+theorem frame_listInsert_newObject (t row o es i h) : Frame (listInsert t row o es i (.newObject h)) := by
+  unfold listInsert accInsert accInsertBase containInsert linkInsertM attrInsertM reqRelInsert; repeat' (first | contradiction | frame_step)
 
-theorem frame_listInsert_foreign (row o es i) : Frame (listInsert row o es i .foreign) := by
-  unfold listInsert accInsert containInsert linkInsertM attrInsertM; repeat' (first | contradiction | frame_step)
+theorem frame_listInsert_foreign (t row o es i) : Frame (listInsert t row o es i .foreign) := by
+  unfold listInsert accInsert accInsertBase containInsert linkInsertM attrInsertM reqRelInsert; repeat' (first | contradiction | frame_step)
 
 /-- a full fixed-length list refuses `insert` with TypeError and changes nothing -/
-theorem listInsert_fixed (row : ARow) (o : Nat) (es : List Nat) (i : Int) (v : Val) (s : State)
+theorem listInsert_fixed (t : Tables) (row : ARow) (o : Nat) (es : List Nat) (i : Int) (v : Val) (s : State)
     (hf : row.fixed ≠ 0) (hl : es.length ≥ row.fixed) :
-    (listInsert row o es i v s).val = .error .typeError ∧ Same s (listInsert row o es i v s).st := by
+    (listInsert t row o es i v s).val = .error .typeError ∧ Same s (listInsert t row o es i v s).st := by
   unfold listInsert
   have hc : (row.fixed != 0 && decide (es.length ≥ row.fixed)) = true := by simp [hf, hl]
   simp only [hc, if_true]
